@@ -145,6 +145,11 @@ def signal(draw, min_n=1, max_n=64, dtype="any",
             d["zero"] = [draw(st.floats(0.2, 0.8)), draw(st.floats(0.2, 2.9))]
     elif kind == "trend":
         d["slope"] = draw(st.sampled_from([0.05, -0.2, 1.0]))
+        if n > 128:
+            # keep the dynamic range of the ramp (slope * n against the noise level) that of the
+            # short records: a 500-sample ramp over noise 0.1 is a 1e7:1 near-deterministic signal on
+            # which every recursive estimator is ill-conditioned
+            d["slope"] = d["slope"] * 64.0 / n
         d["offset"] = draw(st.sampled_from([0.0, 1.0, -5.0]))
         d["noise"] = draw(st.sampled_from([0.1, 0.5, 1.0]))
     elif kind == "int":
@@ -152,6 +157,18 @@ def signal(draw, min_n=1, max_n=64, dtype="any",
     elif kind == "dyn":
         d["f"] = [draw(st.floats(0.05, 0.2)), draw(st.floats(0.25, 0.45))]
     return d
+
+
+@st.composite
+def lengths(draw, lo, hi, big=(513, 800), one_in=16):
+    """Data length: usually in [lo, hi]; one case in ``one_in`` is a long record
+    (size-dependent code paths, e.g. a fast path above some length, are only
+    reachable there).  The rare branch is the *top* value of the selector so that
+    shrinking moves towards the common, short case."""
+    sel = draw(st.integers(0, one_in - 1))
+    if big is not None and sel == one_in - 1:
+        return draw(st.integers(big[0], big[1]))
+    return draw(st.integers(lo, hi))
 
 
 def describe(d):
